@@ -508,6 +508,9 @@ class PolygonTensor(PolytopeTensor):
             try:
                 result = self._plane.meet(other._line)
             except LinearDependenceError as e:
+                if np.all(e.dependent_values):
+                    # all segments lie in the planes of the polygons
+                    return []
                 if isinstance(other, SegmentTensor):
                     other = cast(SegmentTensor, other[~e.dependent_values])
                 result = cast(PlaneTensor, self._plane[~e.dependent_values]).meet(other._line)
@@ -523,6 +526,9 @@ class PolygonTensor(PolytopeTensor):
         try:
             result = self._plane.meet(other)
         except LinearDependenceError as e:
+            if np.all(e.dependent_values):
+                # all lines lie in the planes of the polygons
+                return []
             if other.free_indices > 0:
                 other = other[~e.dependent_values]
             result = cast(PlaneTensor, self._plane[~e.dependent_values]).meet(other)
